@@ -129,4 +129,55 @@ theorem getElem?_of_key {α : Type} (key : α → Nat) {l : List α}
   subst this
   exact List.getElem?_eq_getElem hj
 
+/-! ### folding the (sorted) append over a whole channel: the drain loop of the `fini` branch -/
+
+theorem perm_add {α : Type} (key : α → Nat) (b : Bool) (p : α) (l : List α) :
+    (if b = true then insertBy key p l else l ++ [p]).Perm (p :: l) := by
+  cases b
+  · exact List.perm_append_singleton p l
+  · exact perm_insertBy _ p l
+
+theorem perm_foldl_add {α : Type} (key : α → Nat) (b : Bool) (rq acc : List α) :
+    (rq.foldl (fun acc p => if b = true then insertBy key p acc else acc ++ [p]) acc).Perm (acc ++ rq) := by
+  induction rq generalizing acc with
+  | nil => simp
+  | cons p rest ih =>
+    rw [List.foldl_cons]
+    refine (ih _).trans ?_
+    exact (List.Perm.append_right rest (perm_add key b p acc)).trans List.perm_middle.symm
+
+/-- appending a block that continues a strictly increasing list needs no sorting -/
+theorem foldl_add_eq_append {α : Type} (key : α → Nat) (b : Bool) (rq acc : List α)
+    (h : ((acc ++ rq).map key).Pairwise (· < ·)) :
+    rq.foldl (fun acc p => if b = true then insertBy key p acc else acc ++ [p]) acc = acc ++ rq := by
+  induction rq generalizing acc with
+  | nil => simp
+  | cons p rest ih =>
+    rw [List.foldl_cons]
+    have hlt : ∀ y ∈ acc, key y < key p := by
+      intro y hy
+      rw [List.map_append, List.map_cons] at h
+      exact (List.pairwise_append.mp h).2.2 _ (List.mem_map.mpr ⟨y, hy, rfl⟩) _ (by simp)
+    have hnew : (if b = true then insertBy key p acc else acc ++ [p]) = acc ++ [p] := by
+      split
+      · exact insertBy_append _ hlt
+      · rfl
+    rw [hnew, ih _ (by simpa using h)]
+    simp
+
+theorem pairwise_foldl_insert {α : Type} (key : α → Nat) (rq acc : List α)
+    (hs : (acc.map key).Pairwise (· < ·)) (hnd : ((acc ++ rq).map key).Nodup) :
+    ((rq.foldl (fun acc p => insertBy key p acc) acc).map key).Pairwise (· < ·) := by
+  induction rq generalizing acc with
+  | nil => exact hs
+  | cons p rest ih =>
+    rw [List.foldl_cons]
+    have hperm : ((insertBy key p acc ++ rest).map key).Perm ((acc ++ p :: rest).map key) :=
+      ((List.Perm.append_right rest (perm_insertBy key p acc)).trans List.perm_middle.symm).map key
+    have hnot : key p ∉ acc.map key := by
+      intro hm
+      rw [List.map_append, List.map_cons, List.nodup_append] at hnd
+      exact hnd.2.2 _ hm _ (by simp) rfl
+    exact ih _ (pairwise_insertBy key hs hnot) (hperm.nodup_iff.mpr hnd)
+
 end Sftp.Pipe
